@@ -374,6 +374,9 @@ class Evaluator:
                 return self.eq(self.ev(a[0], env, snap, False), self.ev(a[0], env, snap, True))
             if name == 'isinstance':
                 return isinstance(vals[0], vals[1])
+            if name == 'pack2v':
+                import struct
+                return struct.pack('>H', vals[0]) if 0 <= vals[0] < 65536 else None
             if name in self.spec_funcs:
                 params, ret, body = self.spec_funcs[name]
                 if callable(body):
